@@ -29,3 +29,89 @@ PLANEPX = {
 MODULES = [
     {'name': 'PlanePx', 'src': 'lentil/plane.py', 'sigs': PLANEPX, 'props': ['C07']},
 ]
+
+
+# ---------------------------------------------------------------------------------------------------------------------
+# Metadata hand-over of Plane.multiply / Pupil.multiply / Image.multiply: which attribute of which operand goes where.
+# Not integer code, so not py2lean's expression subset: a dedicated AST reader that accepts exactly the statement shapes
+# below and REFUSES anything else (a refusal breaks the tie of C07).
+def _find_method(mod, cls, name):
+    for node in mod.body:
+        if isinstance(node, ast.ClassDef) and node.name == cls:
+            for f in node.body:
+                if isinstance(f, ast.FunctionDef) and f.name == name: return f
+    raise Refuse(f'{cls}.{name} not found')
+
+def _attr_param(e, allowed=('wavefront', 'self')):
+    """`wavefront.focal_length` -> 'wavefront_focal_length'; a bare local name -> itself"""
+    if isinstance(e, ast.Attribute) and isinstance(e.value, ast.Name) and e.value.id in allowed: return f'{e.value.id}_{e.attr}'
+    if isinstance(e, ast.Name): return e.id
+    raise Refuse(f'hand-over source not understood: {ast.unparse(e)}')
+
+FIELDS = ['wavelength', 'pixelscale', 'focal_length', 'shape', 'ptype']
+FTYPE = {'wavelength': 'M', 'focal_length': 'M', 'pixelscale': 'P', 'shape': 'S', 'ptype': 'T'}
+
+def _override(fn, cls):
+    """body of a `multiply` override: wavefront = super().multiply(wavefront); wavefront.<a> = <src> ...; return wavefront"""
+    st = [s for s in fn.body if not (isinstance(s, ast.Expr) and isinstance(s.value, ast.Constant))]
+    if not st or ast.unparse(st[0]) != 'wavefront = super().multiply(wavefront)': raise Refuse(f'{cls}.multiply: first statement changed')
+    if ast.unparse(st[-1]) != 'return wavefront': raise Refuse(f'{cls}.multiply: does not return the wavefront')
+    sets = []
+    for s in st[1:-1]:
+        if not (isinstance(s, ast.Assign) and len(s.targets) == 1 and isinstance(s.targets[0], ast.Attribute)
+                and ast.unparse(s.targets[0].value) == 'wavefront' and s.targets[0].attr in FIELDS):
+            raise Refuse(f'{cls}.multiply: statement not understood: {ast.unparse(s)}')
+        src = s.value
+        if isinstance(src, ast.Attribute) and ast.unparse(src.value) == 'lentil': par = f'lentil_{src.attr}'
+        else: par = _attr_param(src, ('self',))
+        sets.append((s.targets[0].attr, par))
+    return sets
+
+def gen_handover(repo):
+    import os
+    mod = ast.parse(open(os.path.join(repo, 'lentil/plane.py')).read())
+    fn = _find_method(mod, 'Plane', 'multiply')
+    calls = [n for n in ast.walk(fn) if isinstance(n, ast.Call) and ast.unparse(n.func) == 'lentil.Wavefront.empty']
+    if len(calls) != 1 or calls[0].args: raise Refuse('Plane.multiply: lentil.Wavefront.empty(...) call not found / positional arguments')
+    kw = {k.arg: k.value for k in calls[0].keywords}
+    if sorted(kw) != sorted(FIELDS): raise Refuse(f'Plane.multiply: Wavefront.empty keywords {sorted(kw)} != {sorted(FIELDS)}')
+    src = {k: _attr_param(kw[k], ('wavefront',)) for k in FIELDS}
+    assigns = {ast.unparse(s.targets[0]): s.value for s in ast.walk(fn) if isinstance(s, ast.Assign) and len(s.targets) == 1}
+    # pixelscale = _mul_pixelscale(<a>, <b>)
+    px = assigns.get('pixelscale')
+    if not (isinstance(px, ast.Call) and ast.unparse(px.func) == '_mul_pixelscale' and len(px.args) == 2 and not px.keywords):
+        raise Refuse('Plane.multiply: pixelscale is not _mul_pixelscale(a, b)')
+    pxa = [_attr_param(a) for a in px.args]
+    if sorted(pxa) != ['self_pixelscale', 'wavefront_pixelscale']: raise Refuse(f'Plane.multiply: _mul_pixelscale arguments {pxa}')
+    # shape = wavefront.shape if self.shape == () else self.shape
+    sh = assigns.get('shape')
+    if not (isinstance(sh, ast.IfExp) and ast.unparse(sh.test) == 'self.shape == ()'): raise Refuse('Plane.multiply: shape rule changed')
+    sha, shb = _attr_param(sh.body), _attr_param(sh.orelse)
+    if {sha, shb} - {'self_shape', 'wavefront_shape'}: raise Refuse('Plane.multiply: shape rule sources')
+    pars = []
+    for k in FIELDS:
+        if src[k] not in [p for p, _ in pars]: pars.append((src[k], FTYPE[k]))
+    L = []
+    L.append('/-- the metadata of a `Wavefront` as `Wavefront.empty(...)` receives them -/')
+    L.append('structure WfHandover (M P S T : Type) where\n' + ''.join(f'  {k} : {FTYPE[k]}\n' for k in FIELDS))
+    L.append(f'/-- translated from `plane.py:Plane.multiply` (line {calls[0].lineno}): the keywords of `lentil.Wavefront.empty(...)` -/')
+    L.append('def planeMultiplyHandover {M P S T : Type} ' + ' '.join(f'({p} : {t})' for p, t in pars) + ' : WfHandover M P S T :=\n  { '
+             + ', '.join(f'{k} := {src[k]}' for k in FIELDS) + ' }\n')
+    L.append('/-- translated from `Plane.multiply`: `pixelscale = _mul_pixelscale(…, …)` — the argument order -/')
+    L.append(f'def planeMultiplyPixelscaleArgs {{P : Type}} (self_pixelscale wavefront_pixelscale : P) : P × P := ({pxa[0]}, {pxa[1]})\n')
+    L.append('/-- translated from `Plane.multiply`: `shape = <body> if self.shape == () else <orelse>` (`()` is `none`) -/')
+    L.append('def planeMultiplyShape {S : Type} (self_shape wavefront_shape : Option S) : Option S :=\n'
+             f'  match self_shape with\n  | none => {sha}\n  | some _ => {shb}\n')
+    for cls, nm in (('Pupil', 'pupilMultiplyHandover'), ('Image', 'imageMultiplyHandover')):
+        f = _find_method(mod, cls, 'multiply')
+        sets = _override(f, cls)
+        ps = []
+        for a, p in sets:
+            if (p, FTYPE[a]) not in ps: ps.append((p, FTYPE[a]))
+        L.append(f'/-- translated from `plane.py:{cls}.multiply` (line {f.lineno}): the attributes set after `super().multiply` -/')
+        body = 'w' if not sets else '{ w with ' + ', '.join(f'{a} := {p}' for a, p in sets) + ' }'
+        L.append(f'def {nm} {{M P S T : Type}} (w : WfHandover M P S T) ' + ' '.join(f'({p} : {t})' for p, t in ps) + f' : WfHandover M P S T :=\n  {body}\n')
+    return '\n'.join(L), [f'Wavefront.empty keywords: {src}', f'_mul_pixelscale args: {pxa}', f'shape rule: {sha} if self.shape == () else {shb}']
+
+from py2lean import Refuse
+MODULES.append({'name': 'PlaneHandover', 'src': 'lentil/plane.py', 'generator': gen_handover, 'props': ['C07']})
